@@ -1120,10 +1120,11 @@ where
                     ..
                 }) = self.ports.get_mut(&port)
                 {
-                    if !remote_receiver_closed.load(Ordering::Relaxed) {
-                        // Disable credits provider.
-                        sender_credit_provider.close(false);
+                    // Disable credits provider. This must also happen after a graceful close,
+                    // since a sender that overrides it would wait for credits forever.
+                    sender_credit_provider.close(false);
 
+                    if !remote_receiver_closed.load(Ordering::Relaxed) {
                         // Send hangup notifications.
                         remote_receiver_closed.store(true, Ordering::Relaxed);
                         let notifies = remote_receiver_closed_notify.lock().unwrap().take().unwrap();
